@@ -924,21 +924,49 @@ pub(crate) fn m_link_footnotes() {
     let on = crate::config::plain().link_footnotes(true).string_from_read(html, 80).expect("renders");
     let mut last = 0usize;
     for (k, w) in ["one", "two", "three", "four", "five", "six"].iter().enumerate() {
-        let marker = format!("{}[{}]", w, k + 1);
+        let marker = format!("{}][{}]", w, k + 1);
         let at = on.find(&marker);
         assert!(at.is_some(), "reference {:?} missing in {:?}", marker, on);
         assert!(at.unwrap() >= last, "references out of order in {:?}", on);
         last = at.unwrap();
         let entry = format!("[{}]: u{}", k + 1, k + 1);
         assert!(on.matches(&entry).count() == 1, "footnote {:?} missing or duplicated in {:?}", entry, on);
-        assert!(on.find(&entry).unwrap() > on.find("six[6]").unwrap_or(0));
+        assert!(on.find(&entry).unwrap() > on.find("six][6]").unwrap_or(0));
     }
     let off = crate::config::plain().link_footnotes(false).string_from_read(html, 80).expect("renders");
-    assert!(!off.contains('[') && !off.contains("]: "), "references although disabled: {:?}", off);
+    assert!(!off.contains("][") && !off.contains("]: "), "references although disabled: {:?}", off);
+}
+
+/// Links whose content sits in a transparent container keep their text; links without content leave no reference.
+pub(crate) fn m_shallow_empty() {
+    let _which: u8 = kani::any();
+    let html: &[u8] = b"<p>x <a href=\"u1\"><span><em>aa</em> <em>bb</em></span></a> y <a href=\"u2\"></a> <a href=\"u3\"><span></span></a> z</p>";
+    let out = crate::config::plain().link_footnotes(true).string_from_read(html, 80).expect("renders");
+    assert!(out.contains("aa") && out.contains("bb"), "link text lost: {:?}", out);
+    assert!(out.contains("[1]: u1"), "footnote of the link with content missing: {:?}", out);
+    assert!(!out.contains("u2") && !out.contains("u3"), "an empty link left a footnote: {:?}", out);
+}
+
+/// Every line of a prefixed block carries the prefix, including blank lines between its paragraphs.
+pub(crate) fn m_prefix_blank_lines() {
+    let _which: u8 = kani::any();
+    let html: &[u8] = b"<blockquote><p>first para</p><p>second para</p></blockquote>";
+    let out = crate::config::plain().string_from_read(html, 40).expect("renders");
+    let lines: Vec<&str> = out.lines().collect();
+    assert!(lines.len() >= 3, "expected a separator line: {:?}", out);
+    for l in &lines {
+        assert!(l.starts_with("> ") || *l == ">", "line without quote prefix {:?} in {:?}", l, out);
+    }
+    let html2: &[u8] = b"<ul><li><p>aa</p><p>bb</p></li></ul>";
+    let out2 = crate::config::plain().string_from_read(html2, 40).expect("renders");
+    for (i, l) in out2.lines().enumerate() {
+        let want = if i == 0 { "* " } else { "  " };
+        assert!(l.starts_with(want) || l.trim_end() == want.trim_end(), "list line {} without its indent {:?} in {:?}", i, l, out2);
+    }
 }
 
 crate::verif_common::registry! {
-    m_link_footnotes, m_strike_affix, m_frag_nested, m_dom_children, m_cell_unwind, m_routes_width, m_insert_child, m_ol_numbering, m_prefix_width, m_into_cells, m_table_col_width, m_table_alloc,
+    m_prefix_blank_lines, m_shallow_empty, m_link_footnotes, m_strike_affix, m_frag_nested, m_dom_children, m_cell_unwind, m_routes_width, m_insert_child, m_ol_numbering, m_prefix_width, m_into_cells, m_table_col_width, m_table_alloc,
     r1_cascade_pairs, r1_cascade_triples, r2_specificity_order, r2_specificity_add,
     r3_ol_prefix_total, r4_ol_prefix_is_max,
     r9_tree_map_reduce_order, r12_config_plumbing, r12_width_zero,
